@@ -53,6 +53,13 @@ def build():
     from .index import Index
     from .contracts import load_contracts
     from .verify import Verifier
+    try:
+        import z3 as _z3
+        _seed = int(os.environ.get('VERIF_SEED', '0') or 0)
+        _z3.set_param('smt.random_seed', _seed)
+        _z3.set_param('sat.random_seed', _seed)
+    except Exception:
+        pass
     if HERE not in sys.path:
         sys.path.insert(0, HERE)
     extra = sidecar_modules()
